@@ -28,7 +28,7 @@ P36 = 10 ** 36
 # status enum shared with harness/c13drv (classify) and C13/Common.v (err_code)
 ST = {"ok": 0, "neg_sqrt": 1, "neg_exponent": 2, "exp_too_large": 3, "log_domain": 4, "log_base": 5, "pow_base_le0": 6,
       "pow_base_ge2": 7, "pow_iter_limit": 8, "overflow": 9, "div_zero": 10, "no_converge": 11, "func_error": 12,
-      "int64_range": 13, "other": 99}
+      "int64_range": 13, "exp_contract": 14, "driver": 98, "other": 99}
 
 # op name -> (code in C13/Corr.v, relative vm_compute cost)
 OPS = {"sqrt": (1, 1), "sqrt_bd": (2, 2), "sigfig": (3, 1), "cmp_int": (4, 1), "cmp_bd": (5, 1),
@@ -830,9 +830,10 @@ def oracle_monotone(cases, obs, op):
 def run_oracle(cases, obs):
     out = []
     for c, o in zip(cases, obs):
-        if o["st"] == ST["other"]:
-            out.append(viol(c, o, "unclassified panic: %s" % o.get("msg"), kind="unexpected_panic"))
+        if o["st"] == ST["driver"]:
+            out.append(viol(c, o, "driver error: %s" % o.get("msg"), kind="driver_error"))
             continue
+        # st 99 = the call failed loudly with a text the driver does not recognise: a failure like any other for the oracle
         out += ORACLES[c["op"]](c, o)
     for op in ("sqrt", "sqrt_bd"):
         out += oracle_monotone(cases, obs, op)
@@ -960,7 +961,7 @@ def _bump(o, delta):
 PERTURB = {   # op -> list of (label, function(case, obs) -> perturbed obs or None)
     "sqrt": [("root+1", lambda c, o: _bump(o, 1)), ("root-1", lambda c, o: _bump(o, -1) if int(o["v"][0]) > 0 else None)],
     "sqrt_bd": [("root+1", lambda c, o: _bump(o, 1)), ("root-1", lambda c, o: _bump(o, -1) if int(o["v"][0]) > 0 else None)],
-    "sigfig": [("one more unit of the kept digit", lambda c, o: _sigfig_perturb(c, o))],
+    "sigfig": [("two more units of the kept digit", lambda c, o: _sigfig_perturb(c, o))],
     "cmp_int": [("non-zero verdict replaced by 0", lambda c, o: _cmp_perturb(c, o, 1))],
     "cmp_bd": [("non-zero verdict replaced by 0", lambda c, o: _cmp_perturb(c, o, P36))],
     "cmp_dec": [("non-zero verdict replaced by 0", lambda c, o: _cmp_perturb(c, o, P18))],
@@ -1018,7 +1019,9 @@ def _sigfig_perturb(c, o):
     k = 0
     while d * 10 ** k < P18 // 10:
         k += 1
-    return _bump(o, P18 // (S * 10 ** k))
+    if P18 // (S * 10 ** k) == 0:
+        return None
+    return _bump(o, 2 * (P18 // (S * 10 ** k)))      # two units: one unit from a rounding tie is still within half a unit
 
 
 def selftest(n=60):
@@ -1049,6 +1052,20 @@ def selftest(n=60):
             bad, notes = model_compare([c for c, _ in fake], [o for _, o in fake], "selftest")
             print("selftest %-10s %-34s case_ok rejected %d/%d" % (op, "error replaced by a value", len(bad), len(fake)))
             if len(bad) != len(fake):
+                ok = False
+            # a failure whose text the driver does not recognise (generic code 99) is compatible with any predicted failure ...
+            gen = [(c, {"st": ST["other"], "v": []}) for c, _ in errs]
+            bad, notes = model_compare([c for c, _ in gen], [o for _, o in gen], "selftest")
+            flagged = sum(1 for c, o in gen if ORACLES[c["op"]](c, o))
+            print("selftest %-10s %-34s case_ok rejected %d/%d, oracle flagged %d (both must be 0)" % (op, "failure with unrecognised text", len(bad), len(gen), flagged))
+            if bad or flagged or notes:
+                ok = False
+        # ... but not with a value
+        if good:
+            gen = [(c, {"st": ST["other"], "v": []}) for c, _ in good[:10]]
+            bad, notes = model_compare([c for c, _ in gen], [o for _, o in gen], "selftest")
+            print("selftest %-10s %-34s case_ok rejected %d/%d" % (op, "value replaced by a generic failure", len(bad), len(gen)))
+            if len(bad) != len(gen):
                 ok = False
     print("selftest", "ok" if ok else "FAILED")
     return ok
